@@ -24,7 +24,7 @@ def graphEqB (g h : Graph) : Bool :=
 
 def uAgreesB (m : Except Err (Graph × Nat × Nat × List String)) (s : Except Err (Graph × Nat × Counts)) : Bool :=
   match m, s with
-  | .ok (g, _, c, _), .ok (g', _, c') => graphEqB g g' && c == c'.total
+  | .ok (g, _, c, _), .ok (g', _, c') => graphEqB (Update.live g) (Update.live g') && c == c'.total
   | .error e, .error e' => e == e'
   | _, _ => false
 
